@@ -180,20 +180,23 @@ Section Bag.
           -- constructor; [|constructor]. split; auto. split; auto.
              eapply union_of_NoDup; eauto.
         * rewrite sat_app. unfold sat at 2. rewrite Forall_cons_iff.
-          fold new. rewrite (union_general_sat P news Dn UP).
+          assert (GS : Exists P new <-> Exists P news)
+            by (apply union_general_sat; auto).
+          rewrite GS.
           unfold req. split.
           -- intros (SF & EX & _). split; auto.
-             unfold sat in *. rewrite Forall_forall in *. intros c Hc.
+             unfold sat, bag_ok in *. rewrite Forall_forall in *. intros c Hc.
              destruct (union_le_union new c) eqn:LE.
              ++ (* an obsoleted clause is implied by the new one *)
                 apply union_le_union_spec in LE. destruct LE as [_ LE].
-                apply (union_general_sat P news Dn UP) in EX. fold new in EX.
+                apply GS in EX.
                 apply Exists_exists in EX. destruct EX as (x & Hx & Px).
                 destruct (OK c Hc) as (NEc & _ & Dc).
                 destruct c as [|y c']; [congruence|].
                 apply Exists_exists. exists y. split; [now left|].
                 inversion Dc; subst.
-                apply (UP x y); auto; [now apply Dnew | apply LE; auto; now left].
+                apply (UP x y); [now apply Dnew | assumption | assumption |].
+                apply LE; [now left | assumption].
              ++ apply SF. apply filter_In. split; auto. now rewrite LE.
           -- intros (S & R). split; [|split; auto].
              unfold sat in *. rewrite Forall_forall in *. intros c Hc.
@@ -314,7 +317,7 @@ Section Bag.
     - cbn. now rewrite orb_false_r.
     - cbn [length Nat.ltb Nat.leb]. cbn [app emit_alts Nat.eqb eval_lines andb].
       rewrite <- !app_assoc. cbn [app].
-      rewrite eval_alts_close; [|lia]. reflexivity.
+      rewrite eval_alts_close; [|lia]. cbn [existsb orb]. now rewrite !orb_assoc.
   Qed.
 
   (* The emitted clauses, read as SPARQL, hold for a workflow exactly when the
